@@ -26,5 +26,7 @@ def check(ctx, env):
     M.r8_6_password_taint(ctx, prog)
     from . import codec_rules as K
     K.r4_5_siblings(ctx, prog, rule="R8.7")
+    from . import c02
+    c02.r2_12_security_features(ctx, prog, rule="R8.9")      # which cookie bit means what (anonymity / password algorithms)
     if env.tier == "thorough":
         M.r8_8_lt_end_to_end(ctx, prog)
